@@ -6,7 +6,7 @@ covered by the bounded tier only."""
 import z3
 from . import fieldc, c03
 from .fieldc import FieldInit, sym_field, cell_index, inv_field, same_meta, field_result_base
-from .shared import RegionInit, MeshInit, Point2Index, Index2Point, cdiv, contains_point
+from .shared import RegionInit, MeshInit, Point2Index, Index2Point, cdiv, contains_point, cell_of
 from pyvc.core import *
 from pyvc.contracts import Contract, State, conj, disj
 from pyvc.states import inp, sym_mesh, sym_region, _eq, snapshot, same_value, DIMS, UNITS
@@ -23,6 +23,26 @@ def lattice_offset(E, L, pmin, c):
 
 def is_int(t):
     return z3.ToReal(z3.ToInt(t)) == t
+
+
+def probe_point(E, m, ax, x):
+    """the point whose cell is looked up for a coordinate x on axis ax: the lower corner with x on that axis"""
+    pmin = m.attrs['_region'].attrs['_pmin'].elems
+    return [x if j == ax else pmin[j] for j in range(len(pmin))]
+
+
+def cell_index_of(E, m, ax, x, assume_contract=False):
+    """spec function: index along ax of the cell containing coordinate x = Mesh.point2index(probe point)[ax].
+    assume_contract: additionally assume the (separately proved) post-condition of point2index for this application"""
+    p = probe_point(E, m, ax, x)
+    ks = cell_of(E, m, p)
+    if assume_contract:
+        c = Point2Index()
+        st = c.bind(E, m, [tuple(p)], {})
+        for label, phi in c.post(E, st, tuple(Sym(t, 'int') for t in ks)):
+            if not isinstance(phi, bool):
+                E.assume(phi)
+    return ks[ax]
 
 
 def mesh_geometry(m):
@@ -143,13 +163,183 @@ class MeshSel(Contract):
                         z3.And(L <= lo_, z3.Or(lo_ < L + c, z3.And(lo_ == top, L + c == top)))))
             out.append(('the last kept cell is the one containing the upper bound',
                         z3.And(U - c <= hi_, z3.Or(hi_ < U, z3.And(hi_ == top, U == top)))))
+            # the same facts against the spec function point2index (used by callers: Field.sel slices with these indices)
+            k_lo = cell_index_of(E, m, ax, E.minv(st.lo, st.hi))
+            k_hi = cell_index_of(E, m, ax, E.maxv(st.lo, st.hi))
+            out.append(('lower face == pmin + point2index(lower bound) * cell', L == R(pmin[ax]) + z3.ToReal(k_lo) * c))
+            out.append(('upper face == pmin + (point2index(upper bound) + 1) * cell', U == R(pmin[ax]) + (z3.ToReal(k_hi) + 1) * c))
+            out.append(('cell count == point2index(upper) - point2index(lower) + 1', I(rn[ax]) == k_hi - k_lo + 1))
+        return out
+
+    def bind(s, E, selfobj, args, kw):
+        st = State(selfobj, args, kw)
+        m = selfobj
+        dims = m.attrs['_region'].attrs['_dims']
+        if len(args) + len(kw) != 1:
+            raise Unsupported('Mesh.sel use site outside the modelled forms')
+        if args:
+            dim, val = args[0], None
+        else:
+            dim, val = list(kw.items())[0]
+        if dim not in dims:
+            raise Unsupported('Mesh.sel use site: unknown dimension')
+        st.axis = dims.index(dim)
+        if val is None:
+            st.kind = 'centre'
+        elif isinstance(val, (tuple, list)) and len(val) == 2:
+            st.kind, (st.lo, st.hi) = 'range', val
+        elif isinstance(val, (Sym, int, float)) and not isinstance(val, bool):
+            st.kind, st.x = 'value', val
+        else:
+            raise Unsupported('Mesh.sel use site outside the modelled forms')
+        return st
+
+    def requires(s, E, st):
+        # use sites: no subregions (clipping is C14's), coordinates inside the region, at least 2 dimensions for a plane
+        m = st.self
+        pmin, pmax, n = mesh_geometry(m)
+        ax = st.axis
+        out = [not m.attrs['_subregions'], st.kind == 'range' or len(n) >= 2]
+        if st.kind == 'value':
+            out.append(z3.And(R(st.x) >= R(pmin[ax]), R(st.x) <= R(pmax[ax])))
+        if st.kind == 'range':
+            out.append(z3.And(R(st.lo) >= R(pmin[ax]), R(st.lo) <= R(pmax[ax]), R(st.hi) >= R(pmin[ax]), R(st.hi) <= R(pmax[ax])))
         return out
 
     def fresh_result(s, E, st):
-        raise Unsupported('Mesh.sel modular use: see MeshSelUse')
+        m, ax, k = st.self, st.axis, st.kind
+        pmin, pmax, n = mesh_geometry(m)
+        reg = m.attrs['_region'].attrs
+        d = len(n)
+        if k in ('centre', 'value'):
+            keep = [j for j in range(d) if j != ax]
+            rreg = Obj('Region', {'_pmin': Vec([pmin[j] for j in keep], reg['_pmin'].kind), '_pmax': Vec([pmax[j] for j in keep], reg['_pmax'].kind),
+                                  '_dims': tuple(reg['_dims'][j] for j in keep), '_units': tuple(reg['_units'][j] for j in keep),
+                                  '_tolerance_factor': reg['_tolerance_factor']})
+            res = Obj('Mesh', {'_region': rreg, '_n': Vec([n[j] for j in keep], 'int'), '_bc': '', '_subregions': {}})
+            res.ghost = {'cell': [m.ghost['cell'][j] for j in keep], 'sub': {}} if hasattr(m, 'ghost') else {}
+            return res
+        cell = m.ghost['cell'][ax] if hasattr(m, 'ghost') else E.arith('/', E.arith('-', pmax[ax], pmin[ax]), n[ax])
+        k_lo = Sym(cell_index_of(E, m, ax, E.minv(st.lo, st.hi), assume_contract=True), 'int')
+        k_hi = Sym(cell_index_of(E, m, ax, E.maxv(st.lo, st.hi), assume_contract=True), 'int')
+        L = E.arith('+', pmin[ax], E.arith('*', k_lo, cell))
+        U = E.arith('+', pmin[ax], E.arith('*', E.arith('+', k_hi, 1), cell))
+        rp, rq, rn = list(pmin), list(pmax), list(n)
+        rp[ax], rq[ax], rn[ax] = E.npscalar(E.to_float(L)), E.npscalar(E.to_float(U)), E.npscalar(E.arith('+', E.arith('-', k_hi, k_lo), 1))
+        rp = [E.npscalar(E.to_float(x)) for x in rp]
+        rq = [E.npscalar(E.to_float(x)) for x in rq]
+        rreg = Obj('Region', {'_pmin': Vec(rp), '_pmax': Vec(rq), '_dims': reg['_dims'], '_units': reg['_units'], '_tolerance_factor': reg['_tolerance_factor']})
+        res = Obj('Mesh', {'_region': rreg, '_n': Vec(rn, 'int'), '_bc': '', '_subregions': {}})
+        if hasattr(m, 'ghost'):
+            res.ghost = {'cell': list(m.ghost['cell']), 'sub': {}}
+        return res
 
 
-CONTRACTS = [MeshSel()]
+def field_base(E, result, operands):
+    """result is a new Field that owns its buffers and satisfies Inv(Field)"""
+    out = [('result is a new Field', isinstance(result, Obj) and result.cls == 'Field' and all(result is not o for o in operands))]
+    if not isinstance(result, Obj) or result.cls != 'Field':
+        return out, False
+    out += [('Inv: ' + l, c) for l, c in inv_field(E, result)]
+    if isinstance(result.attrs.get('_array'), NDArr) and isinstance(result.attrs.get('_valid'), NDArr):
+        out.append(("the result's values and validity are its own (no buffer shared with the source)", fieldc.owns_buffers(result, operands)))
+        return out, True
+    return out, False
+
+
+class FieldSel(Contract):
+    """field.sel('a') | field.sel(a=x) | field.sel(a=(lo, hi)): the selected mesh (Mesh.sel contract) and, cell by cell,
+    the value and validity of the source cell at the same physical position"""
+    name = 'Field.sel'
+    qual = ('Field', 'sel')
+    func = 'Field.sel'
+
+    def configs(s, tier):
+        out = []
+        for d in ND[tier]:
+            for ax in range(d):
+                if tier == 'quick' and d == 3 and ax == 1:
+                    continue
+                for nv in ((3,) if (tier == 'quick' and d == 3) else (1, 3)):
+                    if d >= 2:
+                        out += [{'ndim': d, 'nvdim': nv, 'axis': ax, 'kind': 'centre'}, {'ndim': d, 'nvdim': nv, 'axis': ax, 'kind': 'value'}]
+                    out += [{'ndim': d, 'nvdim': nv, 'axis': ax, 'kind': 'range'}]
+        out += [{'ndim': 2, 'nvdim': 3, 'axis': 0, 'kind': 'value_outside'}, {'ndim': 2, 'nvdim': 3, 'axis': 1, 'kind': 'range_outside'}]
+        return out
+
+    def pre_state(s, E, cfg):
+        d, ax, k, nv = cfg['ndim'], cfg['axis'], cfg['kind'], cfg['nvdim']
+        m, assume = sym_mesh(E, d, prefix='fm', tf=1e-12, cellcond=True)
+        vd = ['p', 'q', 'r'][:nv] if nv > 1 else None
+        f, assume = sym_field(E, d, nv, mesh=m, assume=assume, unit='T', vdims=vd, mapping=(dict(zip(vd, reversed(DIMS[:d]))) if (vd and nv == d) else {}))
+        pmin, pmax, n = mesh_geometry(m)
+        dim = m.attrs['_region'].attrs['_dims'][ax]
+        st = State(f, [], {})
+        if k == 'centre':
+            st.args.append(dim)
+        elif k in ('value', 'value_outside'):
+            x = inp(E, 'x', 'float')
+            assume.append(z3.And(R(x) >= R(pmin[ax]), R(x) <= R(pmax[ax])) if k == 'value' else z3.Or(R(x) < R(pmin[ax]), R(x) > R(pmax[ax])))
+            st.kw[dim] = x
+            st.x = x
+        else:
+            lo, hi = inp(E, 'lo', 'float'), inp(E, 'hi', 'float')
+            inside = z3.And(R(lo) >= R(pmin[ax]), R(lo) <= R(pmax[ax]), R(hi) >= R(pmin[ax]), R(hi) <= R(pmax[ax]))
+            assume.append(inside if k == 'range' else z3.Not(inside))
+            st.kw[dim] = (lo, hi)
+            st.lo, st.hi = lo, hi
+        st.assume, st.kind, st.axis = assume, k, ax
+        return st
+
+    def frame(s, E, st):
+        return [('self', st.self)]
+
+    def raises(s, E, st):
+        return [('ValueError', True)] if st.kind.endswith('outside') else []
+
+    def post(s, E, st, result):
+        f, ax, k = st.self, st.axis, st.kind
+        m = f.attrs['_mesh']
+        out, ok = field_base(E, result, [f])
+        if not ok:
+            return out
+        # the mesh of the result is what Mesh.sel returns for the same request (its contract is proved on its own)
+        ms = MeshSel()
+        mst = State(m, list(st.args), dict(st.kw))
+        mst.kind, mst.axis = k, ax
+        for a in ('x', 'lo', 'hi'):
+            if hasattr(st, a):
+                setattr(mst, a, getattr(st, a))
+        rm = result.attrs['_mesh']
+        out += [('mesh: ' + l, c) for l, c in ms.post(E, mst, rm)]
+        nv = f.attrs['_nvdim']
+        out.append(('number of components kept', result.attrs['_nvdim'] == nv))
+        out += same_meta(E, result, f, unit=True)
+        pmin, pmax, n = mesh_geometry(m)
+        cell = m.ghost['cell']
+        rn = [E.pyscalar(x) for x in rm.attrs['_n'].elems]
+        ridx = E.skolem(rn, 'j')
+        c = E.skolem([nv], 'c')[0]
+        if k in ('centre', 'value'):
+            x = st.x if k == 'value' else E.arith('/', E.arith('+', pmin[ax], pmax[ax]), 2)
+            kk = Sym(cell_index_of(E, m, ax, x), 'int')
+            src = list(ridx[:ax]) + [kk] + list(ridx[ax:])
+            out.append(('the removed axis is cut at the cell containing the requested coordinate (the central cell if none is given)',
+                        z3.And(I(kk) >= 0, I(kk) < I(n[ax]))))
+        else:
+            k_lo = Sym(cell_index_of(E, m, ax, E.minv(st.lo, st.hi)), 'int')
+            src = list(ridx)
+            src[ax] = E.arith('+', k_lo, ridx[ax])
+            # same physical position: centre of result cell j == centre of the source cell it is taken from
+            rp = rm.attrs['_region'].attrs['_pmin'].elems
+            out.append(('result cell j and the source cell it is taken from have the same centre',
+                        R(rp[ax]) + (R(ridx[ax]) + HALF) * R(cell[ax]) == R(pmin[ax]) + (R(src[ax]) + HALF) * R(cell[ax])))
+        out.append(('array[j, c] == source.array[cell at the same position, c]', R(result.attrs['_array'].at(E, list(ridx) + [c])) == R(f.attrs['_array'].at(E, list(src) + [c]))))
+        out.append(('valid[j] == source.valid[cell at the same position]', B(result.attrs['_valid'].at(E, list(ridx))) == B(f.attrs['_valid'].at(E, list(src)))))
+        return out
+
+
+CONTRACTS = [MeshSel(), FieldSel()]
 _BY_NAME = {c.name: c for c in CONTRACTS}
 setup_engine = c03.setup_engine
 
